@@ -492,7 +492,8 @@ SPEC = PropSpec(
                  "the AST and compared with each other and with the CCSDS 133.0-B primary-header layout, row by row. "
                  "Decides the layout/inverse statement for every field value at once (shifts and windows are "
                  "value-independent); relies on C03 for what _extract_bits returns and on C02 for re-framing."
-                 ' R13.f: the framing table of C02 (all source kinds, read sizes, fragmentations, prefix) on constructed packets; a step limit on a single packet counts as a refutation.'),
+                 ' R13.f: the framing table of C02 (all source kinds, read sizes, fragmentations, prefix) on constructed packets; a step limit on a single packet counts as a refutation.'
+                 ' R13.c: constructed packets through the definition-level generator in header-only mode (prefix, combining, flags); R13.w crosses out-of-range arguments with the other fields.'),
     rule_doc=("one obligation per (rule, field): R13.pack shift = 48-start-width; R13.range = [0,2**width-1]; "
               "R13.accessor window = CCSDS window; R13.tiling; R13.length-term = len(data)-1; data range [1,65536]; "
               "R13.to-bytes (6,'big'); R13.concat header+data; R13.reject-type ValueError; R13.reject-dominates; "
